@@ -343,7 +343,18 @@ def check_initial_neutral(ctx, R):
 
 
 # ----------------------------------------------------------------------------- STATE-PLUMB / CTOR-COPY / ACC-CONTRACT
+def _norm_records(M, cls, fn):
+    """non-raising symbolic paths of fn, or None when the function is outside the supported fragment"""
+    from ..symexpr import SymEval
+    try:
+        return [r for r in SymEval(M, cls, private_only=True).run(fn) if not r.raised]
+    except AnalysisError:
+        return None
+
+
 def check_state_plumb(ctx, R):
+    """on symbolic normal forms: option dictionaries (`options = {...}; f(**options)`, `dict(kwargs, start=start)`), named
+    temporaries, positional versus keyword spelling and module-level helpers that receive the object are transparent"""
     M = ctx.model
     for modname in (DFC, 'streamz.collection'):
         for fn in M.module(modname).all_funcs:
@@ -354,51 +365,72 @@ def check_state_plumb(ctx, R):
                 if fn.cls is not None and fn.cls.name in ('PeriodicDataFrame', 'Random'):
                     continue
                 used = False
-                for n in own_nodes(fn.node):
-                    if isinstance(n, ast.Call):
-                        for a in list(n.args) + [k.value for k in n.keywords]:
-                            if any(isinstance(x, ast.Name) and x.id == p for x in ast.walk(a)):
-                                used = True
-                    if isinstance(n, ast.Assign) and isinstance(n.value, ast.Name) and n.value.id == p and self_field(n.targets[0]) == p:
-                        used = True
+                recs = _norm_records(M, fn.cls, fn)
+                if recs:
+                    # on some completing path the parameter reaches a call or is stored under its own name
+                    used = False
+                    for r in recs:
+                        hit = any(isinstance(c, ast.Call) and any(isinstance(x, ast.Name) and x.id == p
+                                                                   for a in list(c.args) + [k.value for k in c.keywords]
+                                                                   for x in ast.walk(a)) for c, _s, _l in r.calls) or \
+                            any(f == p and isinstance(v, ast.Name) and v.id == p for f, v, _s, _l in r.stores) or \
+                            (r.ret is not None and any(isinstance(x, ast.Name) and x.id == p for x in ast.walk(r.ret)))
+                        used = used or hit
+                else:
+                    for n in own_nodes(fn.node):
+                        if isinstance(n, ast.Call):
+                            for a in list(n.args) + [k.value for k in n.keywords]:
+                                if any(isinstance(x, ast.Name) and x.id == p for x in ast.walk(a)):
+                                    used = True
+                        if isinstance(n, ast.Assign) and isinstance(n.value, ast.Name) and n.value.id == p and self_field(n.targets[0]) == p:
+                            used = True
                 R.ob('STATE-PLUMB', ctx.construct(fn), p, used,
                      'the parameter `%s` is accepted but never passed on: the aggregation silently ignores it' % p,
                      ctx.where(fn, fn.node.lineno))
     # accumulate_partitions forwards start / returns_state (with_state travels in **kwargs)
     ap = M.method('streamz.collection', 'Streaming', 'accumulate_partitions')
-    pops = {}
-    for n in own_nodes(ap.node):
-        if isinstance(n, ast.Assign) and isinstance(n.value, ast.Call) and src(n.value.func) == 'kwargs.pop' and n.value.args:
-            pops[src(n.value.args[0]).strip("'\"")] = (n.targets[0].id if isinstance(n.targets[0], ast.Name) else None, n.value)
-    # (an option may also be a named parameter of accumulate_partitions instead of a kwargs.pop: same thing, spelled in the signature)
     a_ = ap.node.args
-    named = a_.posonlyargs + a_.args + a_.kwonlyargs
-    dflt = dict(zip([x.arg for x in (a_.posonlyargs + a_.args)][len(a_.posonlyargs + a_.args) - len(a_.defaults):], a_.defaults))
+    pos = a_.posonlyargs + a_.args
+    dflt = dict(zip([x.arg for x in pos][len(pos) - len(a_.defaults):], a_.defaults))
     dflt.update({k.arg: d for k, d in zip(a_.kwonlyargs, a_.kw_defaults) if d is not None})
-    for x in named:
-        if x.arg in ('start', 'returns_state', 'with_state') and x.arg not in pops:
-            d = dflt.get(x.arg)
-            fake = ast.Call(func=ast.Name(id='kwargs.pop', ctx=ast.Load()), args=[ast.Constant(value=x.arg)] + ([d] if d is not None else []), keywords=[])
-            pops[x.arg] = (x.arg, fake)
-    acc_calls = [n for n in own_nodes(ap.node) if isinstance(n, ast.Call) and isinstance(n.func, ast.Attribute) and n.func.attr == 'accumulate']
-    ok, detail = len(acc_calls) == 1, 'expected one call of stream.accumulate'
-    if ok:
-        c = acc_calls[0]
-        kw = {k.arg: src(k.value) for k in c.keywords if k.arg}
-        fw = any(k.arg is None and src(k.value) == 'kwargs' for k in c.keywords)
-        if kw.get('start') != (pops.get('start') or (None,))[0] or 'start' not in pops:
+    kwname = a_.kwarg.arg if a_.kwarg else None
+    recs = _norm_records(M, ap.cls, ap)
+    if not recs:
+        raise AnalysisError('Streaming.accumulate_partitions: no completing symbolic path (unrecognised spelling)')
+    ok, detail = True, ''
+
+    def option_source(v, name, want_default=None):
+        """is v the option `name` as the caller gave it: kwargs.pop('name', default) or the named parameter `name`"""
+        if isinstance(v, ast.Name) and v.id == name and name in [x.arg for x in pos + a_.kwonlyargs]:
+            d = dflt.get(name)
+            return want_default is None or (d is not None and src(d) in want_default)
+        if isinstance(v, ast.Call) and isinstance(v.func, ast.Attribute) and v.func.attr == 'pop' and isinstance(v.func.value, ast.Name) \
+                and v.func.value.id == kwname and v.args and isinstance(v.args[0], ast.Constant) and v.args[0].value == name:
+            return want_default is None or (len(v.args) > 1 and src(v.args[1]) in want_default)
+        return False
+    for r in recs:
+        accs = [c for c, _s, _l in r.calls if isinstance(c, ast.Call) and isinstance(c.func, ast.Attribute) and c.func.attr == 'accumulate']
+        if len(accs) != 1:
+            ok, detail = False, 'expected one call of stream.accumulate on every path (found %d)' % len(accs)
+            break
+        c = accs[0]
+        kw = {k.arg: k.value for k in c.keywords if k.arg}
+        fw = any(k.arg is None and isinstance(k.value, ast.Name) and k.value.id == kwname for k in c.keywords)
+        popped_ws = any(isinstance(x, ast.Call) and isinstance(x.func, ast.Attribute) and x.func.attr == 'pop' and x.args
+                        and isinstance(x.args[0], ast.Constant) and x.args[0].value == 'with_state' for x, _s, _l in r.calls)
+        if 'start' not in kw or not option_source(kw['start'], 'start'):
             ok, detail = False, 'start= is not forwarded to Stream.accumulate'
-        elif kw.get('returns_state') != (pops.get('returns_state') or (None,))[0]:
+        elif 'returns_state' not in kw or not option_source(kw['returns_state'], 'returns_state'):
             ok, detail = False, 'returns_state= is not forwarded to Stream.accumulate'
         elif not fw:
             ok, detail = False, '**kwargs (carrying with_state and the fold operator\'s keywords) is not forwarded'
-        elif 'with_state' in pops:
+        elif popped_ws and 'with_state' not in kw:
             ok, detail = False, 'with_state is consumed before reaching Stream.accumulate'
-        else:
-            d = pops['start'][1]
-            if len(d.args) < 2 or src(d.args[1]) not in ('core.no_default', 'no_default'):
-                ok, detail = False, 'the default of start is not no_default'
-    R.ob('STATE-PLUMB', ctx.construct(ap), 'forwards', ok, detail, ctx.where(ap, ap.node.lineno))
+        elif not option_source(kw['start'], 'start', ('core.no_default', 'no_default')):
+            ok, detail = False, 'the default of start is not no_default'
+        if not ok:
+            break
+    R.ob('STATE-PLUMB', ctx.construct(ap), 'forwards', ok, detail, ctx.where(ap, ap.node.lineno), None, len(recs))
     # accumulate seeds its state from start and takes with_state from the keywords
     for mod in ('streamz.core', 'streamz.dask'):
         init = M.method(mod, 'accumulate', '__init__')
@@ -420,13 +452,23 @@ def check_state_plumb(ctx, R):
     for cname in ('Rolling', 'Window', 'Expanding', 'WindowedGroupBy'):
         c = M.cls(DFC, cname)
         for mname, fn in c.methods.items():
-            for n in own_nodes(fn.node):
-                if isinstance(n, ast.Call) and isinstance(n.func, ast.Attribute) and n.func.attr in ('accumulate_partitions', 'accumulate'):
-                    kw = {k.arg: src(k.value) for k in n.keywords if k.arg}
-                    ok = kw.get('start') == 'self.start' and kw.get('with_state') == 'self.with_state' and kw.get('returns_state') == 'True'
-                    R.ob('STATE-PLUMB', ctx.construct(fn), 'stored-state-forwarded', ok,
-                         '%s.%s builds its accumulation without start=self.start / with_state=self.with_state / returns_state=True (got %s)'
-                         % (cname, mname, {k: kw.get(k) for k in ('start', 'with_state', 'returns_state')}), ctx.where(fn, n.lineno))
+            recs = _norm_records(M, c, fn)
+            if recs is None:
+                if any(isinstance(n, ast.Attribute) and n.attr in ('accumulate_partitions', 'accumulate') for n in ast.walk(fn.node)):
+                    raise AnalysisError('%s: outside the supported fragment (unrecognised spelling)' % ctx.construct(fn))
+                continue
+            verdict = None
+            for r in recs:
+                for call, _s, _l in r.calls:
+                    if isinstance(call, ast.Call) and isinstance(call.func, ast.Attribute) and call.func.attr in ('accumulate_partitions', 'accumulate'):
+                        kw = {k.arg: src(k.value) for k in call.keywords if k.arg}
+                        ok = kw.get('start') == 'self.start' and kw.get('with_state') == 'self.with_state' and kw.get('returns_state') == 'True'
+                        if verdict is None or (verdict[0] and not ok):
+                            verdict = (ok, {k: kw.get(k) for k in ('start', 'with_state', 'returns_state')})
+            if verdict is not None:
+                R.ob('STATE-PLUMB', ctx.construct(fn), 'stored-state-forwarded', verdict[0],
+                     '%s.%s builds its accumulation without start=self.start / with_state=self.with_state / returns_state=True (got %s)'
+                     % (cname, mname, verdict[1]), ctx.where(fn, fn.node.lineno), None, len(recs))
 
 
 def _ctor_param_fields(cls):
@@ -449,6 +491,10 @@ def _ctor_param_fields(cls):
 
 
 def check_ctor_copy(ctx, R):
+    """on the symbolic normal form of every method of the helper classes (a module-level helper that builds the keyword
+    dictionary, `**options`, temporaries and positional/keyword spelling are transparent): a call that re-creates the object -
+    type(self)(...) or one of the helper classes by name - supplies every state-bearing constructor field from self"""
+    from ..symexpr import SymEval
     M = ctx.model
     classes = {n: M.cls(DFC, n) for n in ('Window', 'Expanding', 'EWM', 'Rolling', 'GroupBy', 'WindowedGroupBy')}
     REPLACED = {'root', 'sdf', 'index', 'grouper'}     # the parameter the method exists to replace
@@ -457,50 +503,55 @@ def check_ctor_copy(ctx, R):
         for mname, fn in cls.methods.items():
             if mname == '__init__':
                 continue
-            for n in own_nodes(fn.node):
-                if not isinstance(n, ast.Call):
-                    continue
-                target = None
-                f = src(n.func)
-                if f == 'type(self)':
-                    target = cls
-                elif f in classes:
-                    target = classes[f]
-                if target is None:
-                    continue
-                if f != 'type(self)' and cls.isa(target):
-                    # re-creating the object under a hard-coded class name: every subclass that inherits this method silently
-                    # turns into the base kind (an Expanding window into a row window of n rows, ...)
-                    heirs = sorted(s_.name for s_ in M.classes if s_ is not cls and s_.isa(cls) and s_.find(mname) is fn)
-                    R.ob('CTOR-COPY', ctx.construct(fn), 'keeps-kind', not heirs,
-                         '%s re-creates the object as %s(...) by name, but %s inherit(s) this method: a derived %s silently becomes a '
-                         'plain %s (use type(self))' % (fn.qual, target.name, ', '.join(heirs), heirs[0] if heirs else '', target.name),
-                         ctx.where(fn, n.lineno))
-                tinit = target.find('__init__')
-                tparams = tinit.params()[1:]
-                supplied = {}
-                for i, a in enumerate(n.args):
-                    if i < len(tparams):
-                        supplied[tparams[i]] = src(a)
-                for k in n.keywords:
-                    if k.arg:
-                        supplied[k.arg] = src(k.value)
-                    elif isinstance(k.value, ast.Name):
-                        # **options, where options is a local bound once to dict(a=..., b=...) / {'a': ..., 'b': ...}
-                        defs = [s_.value for s_ in own_nodes(fn.node) if isinstance(s_, ast.Assign)
-                                and any(isinstance(t, ast.Name) and t.id == k.value.id for t in s_.targets)]
-                        if len(defs) == 1:
-                            d = defs[0]
-                            if isinstance(d, ast.Call) and src(d.func) == 'dict' and not d.args:
-                                supplied.update({kk.arg: src(kk.value) for kk in d.keywords if kk.arg})
-                            elif isinstance(d, ast.Dict):
-                                supplied.update({x.value: src(y) for x, y in zip(d.keys, d.values) if isinstance(x, ast.Constant)})
-                allp = tparams + [a.arg for a in tinit.node.args.kwonlyargs]
-                missing = [p for p in allp if p in fields and p not in REPLACED and supplied.get(p) != 'self.' + p]
-                # a freshly replaced root must be supplied too
+            if not any(isinstance(n, ast.Call) and (src(n.func) == 'type(self)' or src(n.func) in classes) for n in own_nodes(fn.node)):
+                continue
+            try:
+                recs = [r for r in SymEval(M, cls).run(fn) if not r.raised]
+            except AnalysisError as e:
+                raise AnalysisError('%s: %s' % (ctx.construct(fn), e))
+            verdict = {}
+            for r in recs:
+                for c, _s, _l in r.calls:
+                    if not isinstance(c, ast.Call):
+                        continue
+                    f = src(c.func)
+                    target = cls if f == 'type(self)' else classes.get(f)
+                    if target is None:
+                        continue
+                    if f != 'type(self)' and cls.isa(target):
+                        # re-creating the object under a hard-coded class name: every subclass that inherits this method silently
+                        # turns into the base kind (an Expanding window into a row window of n rows, ...)
+                        heirs = sorted(s_.name for s_ in M.classes if s_ is not cls and s_.isa(cls) and s_.find(mname) is fn)
+                        R.ob('CTOR-COPY', ctx.construct(fn), 'keeps-kind', not heirs,
+                             '%s re-creates the object as %s(...) by name, but %s inherit(s) this method: a derived %s silently becomes a '
+                             'plain %s (use type(self))' % (fn.qual, target.name, ', '.join(heirs), heirs[0] if heirs else '', target.name),
+                             ctx.where(fn, fn.node.lineno))
+                    tinit = target.find('__init__')
+                    tparams = tinit.params()[1:]
+                    supplied = {}
+                    for i, a in enumerate(c.args):
+                        if i < len(tparams) and not isinstance(a, ast.Starred):
+                            supplied[tparams[i]] = src(a)
+                    opaque = False
+                    for k in c.keywords:
+                        if k.arg:
+                            supplied[k.arg] = src(k.value)
+                        else:
+                            opaque = True       # **something that did not normalise to visible keywords
+                    allp = tparams + [a.arg for a in tinit.node.args.kwonlyargs]
+                    missing = [p for p in allp if p in fields and p not in REPLACED and supplied.get(p) != 'self.' + p]
+                    if opaque and missing:
+                        raise AnalysisError('%s: %s(...) is given **%s, whose content this check cannot see (unrecognised spelling)'
+                                            % (ctx.construct(fn), f, src([k.value for k in c.keywords if not k.arg][0])[:40]))
+                    cur = verdict.get(f)
+                    if cur is None or (not cur and missing):
+                        verdict[f] = missing
+                        verdict[(f, 'target')] = target
+            for f, missing in [(k, v) for k, v in verdict.items() if isinstance(k, str)]:
+                target = verdict[(f, 'target')]
                 R.ob('CTOR-COPY', ctx.construct(fn), f, not missing,
                      '%s re-creates %s without forwarding %s: the copy loses that part of its configuration/state'
-                     % (fn.qual, target.name, ', '.join('self.' + m for m in missing)), ctx.where(fn, n.lineno))
+                     % (fn.qual, target.name, ', '.join('self.' + m for m in missing)), ctx.where(fn, fn.node.lineno), None, len(recs))
 
 
 def acc_paths(model, cls):
